@@ -92,10 +92,15 @@ theorem C19_certified (pre post : Store) (roots m : List Nat) (ps ps' : List (Na
 `ValueLinksClosed`: no retained `Value`/`ValueRoot` cell refers above the prefix; when one does (it was
 updated in place through `get_current_value_mut`) the patched `optimize` rewrites exactly that link. -/
 theorem optimize_retained_prefix_unchanged {s s' : Store} {roots m : List Nat}
-    (h : Store.optimize s roots = .ok (s', m)) (hr : s.retention ≤ s.cells.size) (hvc : ValueLinksClosed s) :
+    (h : Store.optimize s roots = .ok (s', m)) (hvc : ValueLinksClosed s) :
     s'.retention = s.retention ∧ s'.start = s.start ∧ s.retention ≤ s'.cells.size ∧
       ∀ i, i < s.retention → s'.cells[i]? = s.cells[i]? :=
-  BasicOpt.optimize_retained_prefix_unchanged h hr hvc
+  BasicOpt.optimize_retained_prefix_unchanged h hvc
+
+/-- a retention count beyond the existing data: `optimize` is an `Err`, the store is not touched -/
+theorem optimize_retention_beyond (s : Store) (roots : List Nat) (h : s.retention > s.cells.size) :
+    Store.optimize s roots = .err .data :=
+  BasicOpt.optimize_retention_beyond s roots h
 
 /-- `clone_data` leaves the original intact: cells are only appended (`Ext.mono`), every cell that
 existed is unchanged (`Ext.keep`), heads / symbol table / retention count are unchanged (`Ext.frame`) -/
@@ -125,7 +130,8 @@ def cellRefs : Cell → List Nat
 
 /-- the hypotheses under which C19 can hold for `optimize` -/
 structure OptInv (s : Store) (roots : List Nat) : Prop where
-  /-- the retention count is a size of the data block (above it: subtraction overflow at optimize.rs) … -/
+  /-- the retention count is a size of the data block (above it `optimize` returns an error and changes
+  nothing: `optimize_retention_beyond`) … -/
   retentionLe : s.retention ≤ s.cells.size
   /-- … below which no cell other than an input-value cell refers to a cell at or above it (false for a count
   that cuts through a multi-cell value or a list under construction; `Value`/`ValueRoot` cells are exempt
@@ -142,10 +148,10 @@ def C19_optimize_preserves_statement : Prop :=
 
 /-- proved part of `C19_optimize_preserves_statement` -/
 theorem C19_optimize_preserves_partial {s s' : Store} {roots m : List Nat}
-    (h : Store.optimize s roots = .ok (s', m)) (hr : s.retention ≤ s.cells.size) (hvc : ValueLinksClosed s) :
+    (h : Store.optimize s roots = .ok (s', m)) (hvc : ValueLinksClosed s) :
     s'.retention = s.retention ∧ (∀ i, i < s.retention → s'.cells[i]? = s.cells[i]?) ∧
     m.length = roots.length ∧ (∀ (k r : Nat), roots[k]? = some r → r < s.retention → m[k]? = some r) := by
-  obtain ⟨h1, _, _, h4⟩ := BasicOpt.optimize_retained_prefix_unchanged h hr hvc
+  obtain ⟨h1, _, _, h4⟩ := BasicOpt.optimize_retained_prefix_unchanged h hvc
   obtain ⟨h5, h6⟩ := BasicOpt.optimize_retained_roots_fixed h
   exact ⟨h1, h4, h5, h6⟩
 
